@@ -588,6 +588,7 @@ func runC17(ctx *core.Ctx, idx int) *core.Result {
 		c17BlockEndCommentProbe(res)
 		c17LinesThenImportsProbe(res)
 		c17SamePathImportProbe(res)
+		c17HeaderThenImportsProbe(res)
 	}
 	paths := [][]engineRun{applyAPI(pt, srcs)}
 	pnames := []string{"api"}
@@ -834,6 +835,47 @@ func c17SamePathImportProbe(res *core.Result) {
 				if !strings.Contains(runs[0].Out, second) {
 					res.Violate("C17/same-path-import-probe-failed", "the import of the group is gone", replayFiles(pt, src, runs[0].Out))
 					return
+				}
+			}
+		}
+	}
+}
+
+// c17HeaderThenImportsProbe: the package clause carries a comment, an earlier change replaces one import (the lines of the
+// import section are merged), a later change removes another import. The comment behind the package clause is not part of
+// any import declaration and stays. (A detached comment in front of the replaced import declaration is the leading comment
+// of rewritten code and outside C17.)
+func c17HeaderThenImportsProbe(res *core.Result) {
+	headers := []string{" // import \"example.com/p\"", " /* the package */"}
+	seconds := []string{"import \"fmt\"\n", "import (\n\t\"fmt\"\n\t\"strings\"\n)\n", "// #include <stdio.h>\nimport \"C\"\n\nimport \"fmt\"\n"}
+	firsts := [][2]string{
+		{"-import \"os\"\n+import \"example.com/sys\"\n\n-os.Exit(x)\n+sys.Exit(x)\n", "sys.Exit(1)"},
+		{"-import \"os\"\n+import sys \"example.com/sys/v2\"\n\n-os.Exit(x)\n+sys.Exit(x)\n", "sys.Exit(1)"},
+	}
+	for _, h := range headers {
+		for _, sec := range seconds {
+			for _, first := range firsts {
+				use := "fmt.Println(2)"
+				if strings.Contains(sec, "strings") {
+					use = "fmt.Println(strings.ToUpper(\"a\"))"
+				}
+				src := "package p" + h + "\n\nimport \"os\"\n\n" + sec + "\nfunc F() {\n\tos.Exit(1)\n\t" + use + "\n}\n"
+				pt := "@@\nvar x expression\n@@\n" + first[0] + "\n@@\nvar x expression\n@@\n-import \"fmt\"\n\n-fmt.Println(x)\n+println(x)\n"
+				if !gen.Parses(src) {
+					continue
+				}
+				runs := applyAPI(pt, []string{src})
+				res.Evals++
+				res.Ob("header-then-imports-probes", 1)
+				if runs[0].Pan != "" || runs[0].Err != "" || !strings.Contains(runs[0].Out, first[1]) || !strings.Contains(runs[0].Out, "println(") {
+					res.Violate("C17/header-then-imports-probe-failed", runs[0].Pan+runs[0].Err, replayFiles(pt, src, runs[0].Out))
+					return
+				}
+				for _, c := range []string{strings.TrimSpace(h)} {
+					if strings.Count(runs[0].Out, c) != 1 {
+						res.Violate("C17/header-comments-changed/import-removed-after-an-earlier-change", fmt.Sprintf("%q occurs %d times in the output", c, strings.Count(runs[0].Out, c)), replayFiles(pt, src, runs[0].Out))
+						return
+					}
 				}
 			}
 		}
